@@ -86,28 +86,29 @@ type NodeCfg struct {
 }
 
 type OptCfg struct {
-	Name      Tok    `json:"name"`
-	Aliases   []Tok  `json:"aliases"`
-	Kind      string `json:"kind"` // bool incr string int float sopt iopt fopt sslice islice fslice smap
-	Min       int    `json:"min"`
-	Max       int    `json:"max"`
-	DefB      bool   `json:"defb"`
-	DefI      int    `json:"defi"`
-	DefT      Tok    `json:"deft"`
-	Node      int    `json:"node"`
-	Req       bool   `json:"req"`
-	HasMsg    bool   `json:"hasmsg"`
-	ReqMsg    Tok    `json:"reqmsg"`
-	Env       Tok    `json:"env"`
-	Valid     []Tok  `json:"valid"`
-	Sugg      []Tok  `json:"sugg"`
-	SuggFn    []Tok  `json:"suggfn"` // results of a dynamic value-completion function (none: no function)
-	SetCalled bool   `json:"setcalled"`
-	IsHelpOpt bool   `json:"ishelpopt"`
-	Desc      Tok    `json:"desc"`
-	ArgName   Tok    `json:"argname"`
-	UseVar    bool   `json:"usevar"`
-	DefFmt    Tok    `json:"deffmt"` // default as the help prints it, for float kinds (Go's %f formatting is not modelled)
+	Name       Tok    `json:"name"`
+	Aliases    []Tok  `json:"aliases"`
+	AliasSplit bool   `json:"aliassplit"` // builder only: every alias is given by its own Alias modifier
+	Kind       string `json:"kind"`       // bool incr string int float sopt iopt fopt sslice islice fslice smap
+	Min        int    `json:"min"`
+	Max        int    `json:"max"`
+	DefB       bool   `json:"defb"`
+	DefI       int    `json:"defi"`
+	DefT       Tok    `json:"deft"`
+	Node       int    `json:"node"`
+	Req        bool   `json:"req"`
+	HasMsg     bool   `json:"hasmsg"`
+	ReqMsg     Tok    `json:"reqmsg"`
+	Env        Tok    `json:"env"`
+	Valid      []Tok  `json:"valid"`
+	Sugg       []Tok  `json:"sugg"`
+	SuggFn     []Tok  `json:"suggfn"` // results of a dynamic value-completion function (none: no function)
+	SetCalled  bool   `json:"setcalled"`
+	IsHelpOpt  bool   `json:"ishelpopt"`
+	Desc       Tok    `json:"desc"`
+	ArgName    Tok    `json:"argname"`
+	UseVar     bool   `json:"usevar"`
+	DefFmt     Tok    `json:"deffmt"` // default as the help prints it, for float kinds (Go's %f formatting is not modelled)
 }
 
 type EnvCfg struct {
